@@ -261,6 +261,19 @@ class C13(Check):
                                 o['fault'] = {'kind': 'intr', 'at_call': rng.randint(1, 1400), 'genmodule': fk == 'genmodule'}
                         ops.append(o)
                     kind = 'twin'
+                ycands = [(fi, oi) for fi, fl in enumerate(flows[:K]) for oi, o in enumerate(fl)
+                          if o['op'] == 'construct' and o['spec'].get('build') == 'yaml']
+                if kind != 'twin' and ycands and rng.random() < 0.5:
+                    # TWIN LOAD: the failing user loads the very YAML path another workflow loads, and the load fails half-way
+                    # (read error at the k-th file open, or an interruption): the other workflow's load must be unaffected
+                    fi, oi = rng.choice(ycands)
+                    o = copy.deepcopy(flows[fi][oi])
+                    o['wf'] = 10 + f
+                    o['obj'] = f'M{10 + f}'
+                    o['fault'] = ({'kind': 'yaml_read', 'nth': rng.choice([1, 1, 2, 3, 4])} if rng.random() < 0.7
+                                  else {'kind': 'intr', 'at_call': rng.randint(1, 150)})
+                    ops = [o]
+                    kind = 'twin_load'
                 flows.append(ops)
                 fault_kinds.append(kind)
         # seeded scheduler: random merge of the workflows' op lists
